@@ -45,6 +45,42 @@ def check(ctx):
              "*_prefix call is made with the block's own sub-renderer off the stack — before it is pushed, or after it was "
              "popped (a sub-block decorator may return different markers than its parent)")
     ctx.guard("C16-F", rule_f)
+    ctx.rule("C16-G", "inline markup is decorated even when it is empty: the em / strong / strikeout / code arms of the DOM walk build "
+             "their node through `pending` (which always calls the reducer), not through `pending_noempty` — the decorator's "
+             "affixes belong to the element, not to its content")
+    ctx.guard("C16-G", rule_g)
+
+
+def rule_g(ctx):
+    F = ctx.facts
+    from ..util import closure_bodies_created_in, direct_place
+    pdn = F.one("process_dom_node")
+    seen = {}
+    for (cbb, i, cb, ops, fields) in closure_bodies_created_in(F, pdn):
+        kinds = sorted({(st.get("rv") or {}).get("variant") for x in cb.reachable() for st in cb.stmts(x)
+                        if (st.get("rv") or {}).get("variant") in ("Em", "Strong", "Strikeout", "Code") and ends((st.get("rv") or {}).get("adt"), "RenderNodeInfo")})
+        if not kinds:
+            continue
+        # the call the closure is handed to
+        user = None
+        for x in sorted(pdn.reach_from(cbb)):
+            tt = pdn.term(x)
+            if tt["k"] != "call":
+                continue
+            for a in tt["args"]:
+                pl = direct_place(pdn, a)
+                sd = pdn.single_def(pl["l"]) if pl is not None and not pl["p"] else None
+                if sd and sd[0] == "stmt" and (sd[3].get("rv") or {}).get("def") == cb.id:
+                    user = tt
+            if user:
+                break
+        for k in kinds:
+            seen[k] = (callee_def(user) or "?").split("::")[-1] if user else "?"
+            ctx.check(user is not None and (callee_def(user) or "").split("::")[-1] == "pending", "C16-G", "%s:node-built-through-pending" % k,
+                      user["span"] if user else cb.span, pdn.id,
+                      "the %s node is built through %s: an element whose children render to nothing is dropped before the decorator is "
+                      "asked, so its affixes disappear" % (k, seen[k]))
+    ctx.floor("C16-G", "inline markup kinds built in process_dom_node", len(seen), 4)
 
 
 def rule_f(ctx):
